@@ -553,6 +553,72 @@ def i1(ctx):
                         a[1].k == 'bound' and a[1].a[1] == func or _closure_calls(ctx, a[1], func))
         obs.append(Ob('I1', 'Deque.%s/via-index' % meth, ok, 'Deque.%s does not resolve the position with _index and '
                       'apply Cache.%s' % (meth, func), f.loc()))
+    # dict.setdefault never raises KeyError: a lookup `cache[key]` in Index.setdefault is either guarded by a handler
+    # (the get-or-add retry loop) or runs in a transaction together with the add - between an add() that found the key
+    # present and a bare lookup another client can delete it
+    sd = ctx.method('Index', 'setdefault')
+    parents = {}
+    for n in ast.walk(sd.node):
+        for c in ast.iter_child_nodes(n):
+            parents[id(c)] = n
+    bare = []
+    nsub = 0
+    for n in ast.walk(sd.node):
+        if isinstance(n, ast.Subscript) and isinstance(n.ctx, ast.Load) and isinstance(n.slice, ast.Name) \
+                and n.slice.id in sd.params:
+            nsub += 1
+            guarded, x = False, n
+            while id(x) in parents:
+                par = parents[id(x)]
+                if isinstance(par, ast.Try) and x in par.body and any(
+                        h.type is None or any(t in ast.unparse(h.type) for t in ('KeyError', 'LookupError', 'Exception'))
+                        for h in par.handlers):
+                    guarded = True
+                if isinstance(par, ast.With) and any('transact' in ast.unparse(i.context_expr) for i in par.items):
+                    guarded = True
+                x = par
+            if not guarded:
+                bare.append(n.lineno)
+    obs.append(Ob('I1', 'Index.setdefault/lookup-cannot-raise-keyerror', not bare,
+                  'Index.setdefault reads cache[key] (line %s) outside a KeyError handler and outside a transaction: '
+                  'when another client deletes the key between the add() and this lookup, setdefault raises KeyError, '
+                  'which dict.setdefault never does' % bare, sd.loc()))
+    # None is a value: code of persistent.py that decides "key missing" from the result of a get() must use a sentinel
+    # default (ENOVAL), not the default None
+    pm = ctx.prog.modules.get('persistent')
+    bad = []
+    if pm is not None:
+        for fn in [x for x in ast.walk(pm.tree) if isinstance(x, (ast.FunctionDef, ast.Lambda))]:
+            aliases = set()
+            for n in ast.walk(fn):
+                if isinstance(n, ast.Assign) and len(n.targets) == 1 and isinstance(n.targets[0], ast.Name) \
+                        and isinstance(n.value, ast.Attribute) and n.value.attr == 'get':
+                    aliases.add(n.targets[0].id)
+            none_gets = []
+            for n in ast.walk(fn):
+                if isinstance(n, ast.Call) and ((isinstance(n.func, ast.Attribute) and n.func.attr == 'get')
+                                                or (isinstance(n.func, ast.Name) and n.func.id in aliases)):
+                    d = n.args[1] if len(n.args) > 1 else next((k.value for k in n.keywords if k.arg == 'default'), None)
+                    if any(k.arg is None for k in n.keywords) or any(isinstance(a, ast.Starred) for a in n.args):
+                        continue
+                    if d is None or (isinstance(d, ast.Constant) and d.value is None):
+                        none_gets.append(n)
+            if not none_gets:
+                continue
+            names = set()
+            for n in ast.walk(fn):
+                if isinstance(n, ast.Assign) and n.value in none_gets and len(n.targets) == 1 \
+                        and isinstance(n.targets[0], ast.Name):
+                    names.add(n.targets[0].id)
+            for n in ast.walk(fn):
+                if isinstance(n, ast.Compare) and len(n.ops) == 1 and isinstance(n.ops[0], (ast.Is, ast.IsNot)):
+                    sides = [n.left, n.comparators[0]]
+                    if any(isinstance(x, ast.Constant) and x.value is None for x in sides) and any(
+                            x in none_gets or (isinstance(x, ast.Name) and x.id in names) for x in sides):
+                        bad.append(n.lineno)
+    obs.append(Ob('I1', 'Index.lookups/none-is-a-value', not bad,
+                  'persistent.py decides that a key is missing from `get(...) is None` with the default None (line %s): '
+                  'an item whose stored value is None is then treated as absent' % bad, 'diskcache/persistent.py:1'))
     # keyword arguments of a mapping's update()/constructor ARE items: dict.update(other=1) stores the key 'other'
     # (the abc mixin takes its source positional-only).  A re-implementation that names the source parameter captures
     # that keyword instead of storing it.
